@@ -16,6 +16,8 @@ pub mod origins;
 pub mod stream;
 #[cfg(not(miri))]
 pub mod timed;
+#[cfg(not(miri))]
+pub mod trunc;
 
 pub mod sys {
     use std::os::fd::{FromRawFd, IntoRawFd};
